@@ -376,7 +376,7 @@ class NumInterp(Interp):
             'sqrt': np.sqrt, 'exp': np.exp, 'kron': np.kron, 'cos': np.cos, 'sin': np.sin, 'conj': np.conj, 'pi': np.pi,
             'complex128': complex, 'complex64': complex, 'float64': float,
             'einsum': np.einsum, 'moveaxis': np.moveaxis, 'unravel_index': np.unravel_index, 'argmax': np.argmax, 'transpose': np.transpose, 'reshape': np.reshape, 'outer': np.outer, 'tensordot': np.tensordot,
-            'sort': np.sort, 'asarray': np.asarray, 'abs': np.abs, 'mod': np.mod, 'arange': np.arange, 'cumprod': np.cumprod, 'hstack': np.hstack,
+            'sort': np.sort, 'flatnonzero': np.flatnonzero, 'nonzero': np.nonzero, 'count_nonzero': np.count_nonzero, 'logical_xor': np.logical_xor, 'asarray': np.asarray, 'abs': np.abs, 'mod': np.mod, 'arange': np.arange, 'cumprod': np.cumprod, 'hstack': np.hstack,
             'concatenate': np.concatenate, 'dot': np.dot, 'hypot': np.hypot, 'append': np.append, 'prod': np.prod, 'isclose': np.isclose, 'allclose': np.allclose, 'log': np.log, 'power': np.power, 'trace': np.trace, 'square': np.square, 'sum': np.sum, 'tan': np.tan, 'arccos': np.arccos, 'arcsin': np.arcsin, 'angle': np.angle, 'real': np.real, 'imag': np.imag, 'round': np.round, 'floor': np.floor, 'ceil': np.ceil, 'sign': np.sign,
         }
         import math as _math
@@ -435,6 +435,10 @@ class NumInterp(Interp):
             if n.attr in self.npfuncs:
                 return self.npfuncs[n.attr]
             raise Unsupported(f'numpy.{n.attr} not in the whitelist')
+        if isinstance(n, ast.Attribute) and isinstance(n.value, ast.Attribute) and isinstance(n.value.value, ast.Name) and n.value.value.id in ('np', 'numpy') \
+                and n.value.attr in ('bitwise_xor', 'bitwise_and', 'bitwise_or', 'logical_xor', 'logical_and', 'logical_or', 'add', 'multiply') and n.attr in ('reduce', 'accumulate') \
+                and n.value.value.id not in self.env:
+            return getattr(getattr(self.np, n.value.attr), n.attr)
         if isinstance(n, ast.Attribute) and isinstance(n.value, ast.Attribute) and isinstance(n.value.value, ast.Name) and n.value.value.id in ('np', 'numpy') \
                 and n.value.attr == 'linalg' and n.value.value.id not in self.env:
             if n.attr in ('eigvals', 'eigvalsh', 'eig', 'eigh', 'norm', 'det', 'inv', 'matrix_power'):
